@@ -276,7 +276,7 @@ def _main(args, pid, tier, seed, t0, mod, builds, scratch):
             mech = v.get("mechanism", v.get("oracle"))
             h = hashlib.sha1(json.dumps(v, sort_keys=True, default=repr).encode()).hexdigest()[:12]
             path = os.path.join(rdir, "%s.json" % h)
-            if (mech, v.get("build")) in printed and len(printed) > 8:
+            if (mech, v.get("build")) in printed:
                 continue
             printed.add((mech, v.get("build")))
             rec = {"property": pid, "tier": tier, "seed": seed, "violation": v, "unit": v.get("case", {}).get("unit")}
@@ -284,7 +284,10 @@ def _main(args, pid, tier, seed, t0, mod, builds, scratch):
                 json.dump(rec, f, indent=1, default=repr)
             print("VIOLATION property=%s replay=%s" % (pid, path))
             print("  oracle=%s mechanism=%s build=%s" % (v.get("oracle"), mech, v.get("build")))
-            print("  detail: %s" % (json.dumps(v.get("detail"), default=repr)[:1500],))
+            det = v.get("detail")
+            if isinstance(det, dict):
+                det = {k: w for k, w in det.items() if k not in ("program", "base_program")}
+            print("  detail: %s" % (json.dumps(det, default=repr)[:900],))
         exit_code = 1
     elif inconclusive:
         exit_code = 2
